@@ -18,6 +18,7 @@ type family struct {
 	wFeedRaw, wFeedBytes                                       int
 	wGate, wCancel, wStop, wPush, wCbCtx, wFeedErr, wRestart   int
 	wBuiltin, wSendFault                                       int
+	wWait                                                      int // WaitStatus called in the middle of a run (it must block until the server has fully exited)
 	idPool                                                     []string
 	Ks                                                         []int
 	push, builtin                                              []bool
@@ -35,11 +36,11 @@ var families = map[string]family{
 		idPool: []string{"1", "2", "3", "4", "5", "6", "7", "8"}, Ks: []int{1, 2, 3, 5}, push: []bool{false}, builtin: []bool{true}, steps: 20},
 	"c07": {name: "c07", wFeedCall: 10, wFeedNote: 1, wFeedBatch: 5, wFeedInvalid: 2, wGate: 10, wCancel: 6, wBuiltin: 1, wSendFault: 2,
 		idPool: []string{"1", "2", `"a"`}, Ks: []int{1, 2, 4}, push: []bool{false}, builtin: []bool{true, false}, steps: 22},
-	"c08": {name: "c08", wFeedCall: 6, wFeedNote: 5, wFeedBatch: 5, wFeedInvalid: 3, wFeedRaw: 2, wFeedReply: 1, wGate: 8, wCancel: 1, wStop: 3, wPush: 2, wFeedErr: 3, wRestart: 2, wSendFault: 2,
+	"c08": {name: "c08", wFeedCall: 6, wFeedNote: 5, wFeedBatch: 5, wFeedInvalid: 3, wFeedRaw: 2, wFeedReply: 1, wGate: 8, wCancel: 1, wStop: 3, wPush: 2, wFeedErr: 3, wRestart: 2, wSendFault: 2, wWait: 2,
 		idPool: []string{"1", "2", "3", "4"}, Ks: []int{1, 2, 4}, push: []bool{false, true}, builtin: []bool{true}, steps: 22},
 	"c09": {name: "c09", wFeedCall: 3, wFeedNote: 3, wFeedBatch: 2, wFeedReply: 10, wGate: 6, wStop: 1, wPush: 10, wCbCtx: 5, wFeedInvalid: 1,
 		idPool: []string{"1", "2", "3"}, Ks: []int{2, 4}, push: []bool{true, true, true, false}, builtin: []bool{true}, steps: 24},
-	"c10": {name: "c10", wFeedCall: 6, wFeedNote: 3, wFeedBatch: 6, wFeedInvalid: 2, wFeedRaw: 2, wFeedReply: 3, wGate: 10, wCancel: 2, wStop: 2, wPush: 5, wCbCtx: 2, wFeedErr: 2, wRestart: 1, wSendFault: 1,
+	"c10": {name: "c10", wFeedCall: 6, wFeedNote: 3, wFeedBatch: 6, wFeedInvalid: 2, wFeedRaw: 2, wFeedReply: 3, wGate: 10, wCancel: 2, wStop: 2, wPush: 5, wCbCtx: 2, wFeedErr: 2, wRestart: 1, wSendFault: 1, wWait: 1,
 		idPool: []string{"1", "2", "3", "4"}, Ks: []int{1, 3}, push: []bool{true, false}, builtin: []bool{true}, steps: 24},
 }
 
@@ -257,6 +258,7 @@ func (s *scen) step() {
 	r.mu.Lock()
 	started := append([]string(nil), r.started...)
 	cbOpen := append([]int(nil), r.cbOpen...)
+	waiting := r.waiting
 	var noteHandlers []string // running notification handlers that are listening on their gate
 	for _, p := range started {
 		if r.notes[p] {
@@ -344,6 +346,9 @@ func (s *scen) step() {
 				r.handlerPush(p, true, "pc", pick(g, []string{"", `{"h":1}`}))
 			}
 		}})
+	}
+	if waiting < 2 {
+		acts = append(acts, act{f.wWait, func() { r.callWait() }})
 	}
 	if len(cbOpen) > 0 {
 		acts = append(acts, act{f.wCbCtx, func() { r.cbCtxEnd(pick(g, cbOpen), g.chance(1, 2)) }})
